@@ -23,12 +23,10 @@ import json
 import os
 import subprocess
 import sys
-import time
 
 import numpy as np
 
 import oqupy
-import oqupy.backends.pt_tebd_backend as be
 import oqupy.system_dynamics as sd
 from oqupy.backends.pt_tebd_backend import PtTebdBackend
 from oqupy.mps_mpo import NnGate, SiteGate, GateLayer, AugmentedMPS
@@ -36,7 +34,6 @@ from oqupy.process_tensor import TrivialProcessTensor
 
 from vf.core import Case, Ob
 from vf import core, env, lib, tebd
-from vf.sym import S, SI
 
 ASSUMPTIONS = [
     "exact real/complex arithmetic (floating-point rounding of tensor arithmetic outside the claim)",
@@ -66,11 +63,6 @@ def _mps(inp, n, bond, adims, d=2):
         br = 1 if i == n - 1 else bond
         gs.append(inp.arr("g%d" % i, (bl, D, adims[i], br)))
     return gs
-
-
-def _real(x):
-    """lambda diagonals as the back-end expects them in the current mode"""
-    return x
 
 
 class OpNn(Case):
@@ -392,6 +384,38 @@ class Step(Case):
         return obs
 
 
+class NormOne(Case):
+    """trace-preserving gates (by construction), unit-trace product initial state, no
+    process tensors: norm == 1 and every reduced state has unit trace at every step"""
+    functions = ProdStep.functions[:-1]
+    stubs = (STUB_SVD, STUB_GATE)
+    env = {"noconj": True, "extra": SYM_EXTRA}
+    timeout_s = 600
+
+    def __init__(self, n, order, N, kind):
+        self.n, self.order, self.N, self.kind = n, order, N, kind
+        self.id = "H1/norm_one/n%d_o%d_N%d_%s" % (n, order, N, kind)
+        self.bounds = {"d": 2, "sites": n, "order": order, "steps": N, "gate_bond": 2,
+                       "gate_entries": kind + ", trace preserving by construction", "process_tensors": "none"}
+
+    def run(self, inp):
+        n, N = self.n, self.N
+        rhos = []
+        for s in range(n):
+            r = inp.arr("r%d" % s, (2, 2))
+            r[1, 1] = inp.one() - r[0, 0]
+            rhos.append(r)
+        gates = [tebd.make_tp_gate(inp, "G%d" % k, 2, self.kind) for k in range(n - 1)]
+        sites = list(range(n)) + [tuple(range(n))]
+        _, res, _ = _run_pt_tebd(inp, n, self.order, N, rhos, gates, [None] * n, sites)
+        obs = []
+        for step in range(N + 1):
+            obs.append(Ob.eq("norm at step %d == 1" % step, res["norm"][step], inp.one()))
+            for ss in sites:
+                obs.append(Ob.eq("trace of sites %s at step %d == 1" % (ss, step), np.trace(res["dynamics"][ss].states[step]), inp.one()))
+        return obs
+
+
 class Order(Case):
     """H2: apply_nn_gate_layer, parallel branch under the Executor.map contract with a
     solver-chosen run order == sequential branch"""
@@ -447,17 +471,17 @@ class OrderRun(Case):
     timeout_s = 600
     max_paths = 300
 
-    def __init__(self, n, order, mode):
-        self.n, self.order, self.mode = n, order, mode
-        self.id = "H2/run/n%d_o%d_%s" % (n, order, mode)
-        self.bounds = {"d": 2, "sites": n, "order": order, "steps": 1, "mode": mode, "gate_bond": 2, "gate_entries": "sparse",
+    def __init__(self, n, order, mode, kind="sparse"):
+        self.n, self.order, self.mode, self.kind = n, order, mode, kind
+        self.id = "H2/run/n%d_o%d_%s_%s" % (n, order, mode, kind)
+        self.bounds = {"d": 2, "sites": n, "order": order, "steps": 1, "mode": mode, "gate_bond": 2, "gate_entries": kind,
                        "run_orders": "every combination of per-layer permutations (symbolic)"}
 
     def run(self, inp):
         n = self.n
         rhos = [inp.arr("r%d" % s, (2, 2)) for s in range(n)]
-        gates = [tebd.make_gate(inp, "G%d" % k, 2, 2, 2, "sparse") for k in range(n - 1)]
-        pts = [None if s % 2 else tebd.make_pt(inp, "e%d" % s, 2, 1, 1, kind="sparse")[0] for s in range(n)]
+        gates = [tebd.make_gate(inp, "G%d" % k, 2, 2, 2, self.kind) for k in range(n - 1)]
+        pts = [None if s % 2 else tebd.make_pt(inp, "e%d" % s, 2, 1, 1, kind=self.kind)[0] for s in range(n)]
         sites = list(range(n)) + [(1, 2)]
         _, res_s, _ = _run_pt_tebd(inp, n, self.order, 1, rhos, gates, pts, sites)
         count = [0]
@@ -571,15 +595,20 @@ class Fresh(Case):
 
 
 def cases(tier):
-    if tier == "exp":
-        return [Step(3, 2, 1, 2, "perm", 1), Step(4, 2, 1, 2, "perm", 1), Step(4, 1, 1, 2, "perm", 1), Step(3, 2, 2, 2, "perm", 2),
-                ProdStep(4, 2, 2, "perm", 2), ProdStep(3, 1, 2, "perm", 2)]
     cs = [OpNn(2, 0, 2, (1, 1), 2), OpNn(3, 1, 2, (2, 1, 2), 2), OpNn(3, 0, 2, (1, 2, 1), 1, twice=True),
           OpSitePt(3, 2, (1, 1, 2), 4), OpSitePt(2, 2, (2, 1), 3),
           OpTraces(2, 2, (2, 1)), OpTraces(3, 2, (1, 2, 1))]
-    cs += [ProdStep(2, 1, 1, "dense", 1), ProdStep(3, 2, 1, "sparse", 1, nopt=(1,)), ProdStep(3, 1, 2, "sparse", 2)]
+    cs += [ProdStep(2, 1, 1, "dense", 1), ProdStep(3, 2, 1, "sparse", 1, nopt=(1,)), ProdStep(3, 1, 2, "perm", 2)]
     cs += [Step(2, 1, 1, 2, "dense", 1), Step(2, 2, 1, 2, "sparse", 1), Step(3, 1, 1, 2, "sparse", 1, nopt=(0,)),
-           Step(2, 1, 2, 2, "sparse", 2, ptrank=3)]
+           Step(2, 1, 2, 2, "sparse", 2, ptrank=3), Step(3, 2, 1, 2, "perm", 1)]
+    cs += [NormOne(2, 1, 1, "dense"), NormOne(3, 2, 1, "perm")]
     cs += [Order(4, "multithread", 1, 2), Order(4, "multiprocess", 1, 1), OrderRun(4, 1, "multithread")]
     cs += [Fresh()]
+    if tier == "thorough":
+        cs += [OpNn(4, 1, 2, (1, 2, 2, 1), 2), OpNn(4, 2, 2, (2, 1, 1, 2), 1, twice=True), OpNn(3, 1, 2, (2, 2, 2), 2, twice=True),
+               OpSitePt(4, 2, (1, 2, 1, 1), 3), OpTraces(4, 2, (1, 2, 2, 1)),
+               NormOne(3, 1, 2, "perm"), NormOne(4, 2, 1, "perm")]
+        cs += [ProdStep(3, 1, 2, "sparse", 2), ProdStep(3, 2, 1, "sparse", 1), ProdStep(4, 1, 2, "perm", 2), ProdStep(3, 2, 2, "perm", 2)]
+        cs += [Step(4, 1, 1, 2, "perm", 1), Step(4, 2, 1, 2, "perm", 1), Step(3, 1, 2, 2, "perm", 2)]
+        cs += [Order(4, "multithread", 2, 2), Order(6, "multiprocess", 1, 1), OrderRun(4, 2, "multiprocess", "perm"), OrderRun(5, 1, "multithread", "perm")]
     return cs
